@@ -99,6 +99,7 @@ type Obligation struct {
 	Pos      string
 	Props    []string // property tags
 	Prefix   int      // number of script lines that precede the goal
+	Extra    []string // lines local to this obligation (skolem constants, instances at them)
 	Goal     string   // formula that must be valid under pc
 	PC       string
 	Script   *Script
@@ -592,10 +593,10 @@ func (e *Exec) checkPost(st *State, kind, label, goal string, props []string, po
 	if st.pc == "false" {
 		return
 	}
-	goal = e.sc.skolemize(goal)
+	goal, extra := e.sc.skolemize(goal)
 	o := &Obligation{
 		Name: e.oblName(kind, label), Kind: kind, Func: e.fn.String(), Pos: pos,
-		Prefix: e.sc.mark(), Goal: goal, PC: st.pc, Script: e.sc, Expect: "unsat", Props: props,
+		Prefix: e.sc.mark(), Goal: goal, PC: st.pc, Script: e.sc, Expect: "unsat", Props: props, Extra: extra,
 	}
 	if len(props) == 0 {
 		o.Props = e.propsDef
